@@ -61,6 +61,22 @@ pub fn check_value(loc: &Locale, case: &Value, st: &mut Stats, mode: Count) {
     }
     if route == "bytes" {
         if let Some(b) = case_bytes(case) {
+            // the value under test was itself parsed from these bytes (possibly right after other,
+            // failing, parses on this thread): it must be the value the text denotes
+            if let Zone::MustAccept(m, _) = model::ref_locale(&b) {
+                if s != model::canon_locale(&m) && s != model::canon_locale(&m.without_true()) {
+                    st.fail("parsed-value!=reference", case.clone(), size, format!("value parsed from the bytes prints {s:?}, reference {:?}", model::canon_locale(&m.without_true())));
+                }
+            }
+            if s.len() > b.len() {
+                st.fail("canonical-form-longer-than-input", case.clone(), size, format!("value parsed from the bytes prints {s:?}"));
+            }
+            if let Ok(Ok(cs)) = guard(|| unic_locale::canonicalize(&b)) {
+                if cs != s {
+                    st.fail("canonicalize!=to_string-of-parsed-value", case.clone(), size, format!("canonicalize {cs:?} vs {s:?}"));
+                }
+            }
+            // last: its failing language-identifier parses are what the next value on this thread is parsed after
             check_bytes(&b, case, st);
         }
     }
